@@ -284,4 +284,5 @@ def targets(ctx):
         Target("corpus_values_json_vs_reference", ev, strategy=strat(), quick=600, thorough=7000, time_quick=70),
         Target("grammar_schema_json_names", grammar_ev, strategy=_g.strategy(), quick=3, thorough=40, time_quick=60, time_thorough=900, pin_budget=10, pin_sigs=1),
         _seq.target("C05"),
+        *__import__("vf.props._thr", fromlist=["target"]).target(ctx, ['from_json_names', 'from_dict:Solo', 'to_dict:Words']),
     ]
